@@ -102,9 +102,12 @@ def replay(ctx, path):
         return 0
     front = obj['front']
     sched = [{k: v for k, v in e.items() if k not in ('post', 'raised')} for e in obj['rec']['ev']]
-    rec = {'ev': fibkit.run_schedule(front, sched)}
-    rej = judge.validate(ctx, 'NdnFibTrace', fc.trace_cfg(front), [rec], 'replay')
-    for i, lno in rej:
-        print('rejected at event', lno, json.dumps(rec['ev'][lno - 1] if lno else None))
-    print('re-executed on the current tree: %s' % ('REJECTED' if rej else 'accepted'))
-    return 1 if rej else 0
+    bad = 0
+    for mode in ('debug logging', 'quiet'):          # harness.appkit.log_mode alternates between the two
+        rec = {'ev': fibkit.run_schedule(front, sched)}
+        rej = judge.validate(ctx, 'NdnFibTrace', fc.trace_cfg(front), [rec], 'replay')
+        for i, lno in rej:
+            print('rejected at event', lno, json.dumps(rec['ev'][lno - 1] if lno else None))
+        print('re-executed on the current tree (%s): %s' % (mode, 'REJECTED' if rej else 'accepted'))
+        bad += 1 if rej else 0
+    return 1 if bad else 0
